@@ -8,7 +8,14 @@
                                                        obs [len root.. len pod.. len ctr..]
      4 quota  : budget cap cur                                                          obs [quota]
      5 history: cap init N (op arg)*N   op 1 quota round(budget) 2 recover 3 reset(value) 4 cpuset round
-                                                       obs cpu.cfs_quota_us after every step *)
+                                                       obs cpu.cfs_quota_us after every step
+     6 budget over a structured node object:
+                cap hasAlloc alloc anState anPolicy hasRes resMicro cpusStyle K cpus*K
+                thr hasMin minPct nodeU pertKind pertIdx pertDelta P pods H hosts        obs [b1 b2]
+                anState  ones digit 0 no annotations, 1 no reservation entry, 2 unreadable entry, 3 JSON object
+                         (tens digit: which spelling of "absent" / "unreadable" the harness writes)
+                anPolicy 0 unset 1 Default 2 ReservedCPUsOnly 3 another string
+                resMicro resources.cpu in micro-CPU; cpusStyle 0..4 legal spellings, 5 not a cpu list *)
 From Coq Require Import List ZArith Bool.
 From Verif Require Import Lib.Wire Gen.Gen_consts C10.Model C10.Spec.
 Import ListNotations.
@@ -25,18 +32,39 @@ Definition dec_proc (l : list Z) : proc * list Z :=
 Definition dec_cpod (l : list Z) : cpod * list Z :=
   let '(cs, r) := take_list (tl l) in (mkCpod (hdZ l mod 10) cs, r).   (* tens digit: spelling of the list *)
 
-(* ---------- kind 1 *)
+(* ---------- kind 1 (legacy layout: the annotation is one of three fixed shapes) *)
+Definition upto (n : Z) : list Z := map Z.of_nat (seq 0 (Z.to_nat n)).
 Definition dec_budget (l : list Z) : binput * (Z * Z * Z) :=
   let capm := nth0 0 l in let alloc := nth0 1 l in
-  let ak := nth0 2 l in let av := nth0 3 l in
-  let ak := ak mod 10 in                       (* tens digit: spelling of the reservedCPUs list *)
-  let anno := if ak =? 1 then av else if ak =? 2 then av * 1000 else 0 in
+  let ak0 := nth0 2 l in let av := nth0 3 l in
+  let ak := ak0 mod 10 in                      (* tens digit: spelling of the reservedCPUs list *)
+  let pol := ak0 / 100 in                      (* hundreds digit: applyPolicy *)
+  let anno := if ak =? 1 then mkAnno 3 pol (Some (av * 1000)) true []
+              else if ak =? 2 then mkAnno 3 pol None true (upto av)
+              else if ak =? 3 then mkAnno 1 0 None true []
+              else anno_none in
   let thr := nth0 4 l in
   let mn := if zb (nth0 5 l) then Some (nth0 6 l) else None in
   let nodeu := nth0 7 l in
   let '(ps, r1) := decode_seq dec_pod (skipn 11 l) in
   let '(hs, _) := decode_seq dec_happ r1 in
-  (mkB capm alloc anno thr mn nodeu ps hs, (nth0 8 l, nth0 9 l, nth0 10 l)).
+  (mkB capm (Some alloc) anno thr mn nodeu ps hs, (nth0 8 l, nth0 9 l, nth0 10 l)).
+
+(* ---------- kind 6 *)
+Definition dec_budget6 (l : list Z) : binput * (Z * Z * Z) :=
+  let capm := nth0 0 l in
+  let alloc := if zb (nth0 1 l) then Some (nth0 2 l) else None in
+  let st := nth0 3 l mod 10 in
+  let pol := nth0 4 l in
+  let res := if zb (nth0 5 l) then Some (nth0 6 l) else None in
+  let ok := negb (nth0 7 l mod 10 =? 5) in
+  let '(cpus, r) := take_list (skipn 8 l) in
+  let thr := nth0 0 r in
+  let mn := if zb (nth0 1 r) then Some (nth0 2 r) else None in
+  let nodeu := nth0 3 r in
+  let '(ps, r1) := decode_seq dec_pod (skipn 7 r) in
+  let '(hs, _) := decode_seq dec_happ r1 in
+  (mkB capm alloc (mkAnno st pol res ok cpus) thr mn nodeu ps hs, (nth0 4 r, nth0 5 r, nth0 6 r)).
 
 (* ---------- kind 2 *)
 Definition dec_pick (l : list Z) : Z * list proc :=
@@ -82,6 +110,8 @@ Definition run_case (inp : list Z) : list Z :=
       let '(a, b, c) := adjust (dec_adjust l) in encode_list a ++ encode_list b ++ encode_list c
   | 4 :: l => [quota_new (nth0 0 l) (nth0 1 l) (nth0 2 l)]
   | 5 :: l => let '(cap, init, ops) := dec_hist l in hist cap (init, false) ops
+  | 6 :: l =>
+      let '(i, (pk, pi, pd)) := dec_budget6 l in [budget i; budget (perturb pk pi pd i)]
   | _ => [-1]
   end.
 
@@ -107,21 +137,28 @@ Definition prop_case (inp obs : list Z) : Z :=
       | _ => 409
       end
   | 5 :: l => let '(cap, init, ops) := dec_hist l in hist_code cap init ops obs
+  | 6 :: l => let '(i, (pk, pi, pd)) := dec_budget6 l in budget_code pk pi pd i obs
   | _ => 9
   end.
 
-(* non-trivial: budget above the configured minimum with at least one counted non-BE consumer;
+(* non-trivial (kinds 1 and 6): budget above the configured minimum with at least one counted non-BE consumer;
    pick of 2..|ps| cpus from at least two buckets; an adjust that hands out a non-empty set on
    a node with at least one protected cpu; a quota that is written (no bypass) *)
+Definition nontrivial_budget (i : binput) : bool :=
+  (0 <? pods_nonbe (b_pods i) + hosts_nonbe (b_hosts i))
+  && match b_min i with
+     | None => true
+     | Some mp => Z.quot (b_cap i * mp) 100 <? budget i
+     end.
+Definition wf_budget (i : binput) (pert : Z * Z * Z) : bool :=
+  let '(pk, pi, pd) := pert in
+  (node_reserved i <? 2 ^ 50) && (node_reserved (perturb pk pi pd i) <? 2 ^ 50)
+  && forallb (fun p => 0 <=? p_use p) (b_pods i).
+
 Definition nontrivial_case (inp : list Z) : bool :=
   match inp with
-  | 1 :: l =>
-      let '(i, _) := dec_budget l in
-      (0 <? pods_nonbe (b_pods i) + hosts_nonbe (b_hosts i))
-      && match b_min i with
-         | None => true
-         | Some mp => Z.quot (b_cap i * mp) 100 <? budget i
-         end
+  | 1 :: l => let '(i, _) := dec_budget l in nontrivial_budget i
+  | 6 :: l => let '(i, _) := dec_budget6 l in nontrivial_budget i
   | 2 :: l =>
       let '(n, ps) := dec_pick l in
       (2 <=? n) && (n <=? lenZ ps) && (2 <=? lenZ (buckets_of ps))
@@ -146,9 +183,8 @@ Definition finding_sig (inp obs : list Z) : Z := 0.
 (* well-formed case: the hypotheses of the theorems, decided on the wire input *)
 Definition wf_case (inp : list Z) : bool :=
   match inp with
-  | 1 :: l =>
-      let '(i, _) := dec_budget l in
-      (node_reserved i <? 2 ^ 50) && forallb (fun p => 0 <=? p_use p) (b_pods i)
+  | 1 :: l => let '(i, pert) := dec_budget l in wf_budget i pert
+  | 6 :: l => let '(i, pert) := dec_budget6 l in wf_budget i pert
   | 2 :: l => let '(_, ps) := dec_pick l in nodupb (map cpu ps)
   | 3 :: l => nodupb (map cpu (a_procs (dec_adjust l)))
   | 4 :: _ => true
